@@ -546,3 +546,5 @@ func vCopyInto(dst, src reflect.Value, seen map[uintptr]reflect.Value) {
 		dst.Set(src)
 	}
 }
+
+func vMapOrderOff() {}
